@@ -113,20 +113,13 @@ theorem fp_inv_mul {a : Nat} (ha : a < P.p) (hne : a ≠ 0) :
   rw [(SqiProofs.GfRef.fp_inv_spec hL.valid ha).2]
   exact inv_mul_cancel₀ (fun h => hne (toZ_eq_zero hL.valid ha h))
 
-/- FULL STATEMENT of the property (false of the ref code at a = 0, see `fp_is_square_zero`):
-     ∀ a < p,  fp_is_square a = 0xFFFFFFFF ↔ IsSquare (toZ a)          -- "true exactly on squares, 0 included"
-   Proved: the statement for a ≠ 0, and the negation at the witness a = 0. -/
-theorem fp_is_square_spec_partial {a : Nat} (ha : a < P.p) (hne : a ≠ 0) :
+/-- squareness is true exactly on squares, 0 included (Euler's criterion + the explicit zero test added
+    by the repair `fix: fp_is_square(0)`) -/
+theorem fp_is_square_spec {a : Nat} (ha : a < P.p) :
     (Ref.fp_is_square P a = T32 ↔ IsSquare (toZ P a)) ∧
-    (Ref.fp_is_square P a = 0 ↔ ¬ IsSquare (toZ P a)) :=
+    (Ref.fp_is_square P a = 0 ∨ Ref.fp_is_square P a = T32) :=
   have := hL.prime
-  SqiProofs.GfRef.fp_is_square_spec_partial hL.valid ha (fun h => hne (toZ_eq_zero hL.valid ha h))
-
-/-- counterexample: 0 is a square (`0 = 0·0`) but the ref `fp_is_square` returns false on it -/
-theorem fp_is_square_zero_counterexample :
-    Ref.fp_is_square P 0 = 0 ∧ IsSquare (toZ P 0) := by
-  have := hL.prime
-  exact ⟨SqiProofs.GfRef.fp_is_square_zero hL.valid, ⟨0, by simp [toZ_zero]⟩⟩
+  SqiProofs.GfRef.fp_is_square_spec hL.valid ha
 
 /-- square root with the documented sign normalisation (even canonical representative) -/
 theorem fp_sqrt_spec {a : Nat} (ha : a < P.p) :
@@ -167,7 +160,7 @@ end
 
 /-- non-vacuity: the hypotheses `IsLevel P`, `a < P.p`, `a ≠ 0` are met, and the concrete model
     evaluates as the theorems say (kernel evaluation of the level-1 model) -/
-example : IsLevel lvl1 ∧ (5 : Nat) < lvl1.p ∧ Ref.fp_is_square lvl1 0 = 0 ∧
+example : IsLevel lvl1 ∧ (5 : Nat) < lvl1.p ∧ Ref.fp_is_square lvl1 0 = T32 ∧
     Ref.fp_mul lvl1 (Ref.fp_inv lvl1 5) 5 = Ref.fp_set_one lvl1 := ⟨.l1, by decide +kernel, by decide +kernel, by decide +kernel⟩
 
 /-! ## GF(p²): `fp2.c` as coded, over ANY back-end whose `fp_*` layer refines `ZMod p`
@@ -232,8 +225,8 @@ theorem fp2_inv_spec {x : Fp2 α} (hx : dom2 dom x) :
   SqiProofs.GfFp2.fp2_inv_spec h hx
 
 /- FULL STATEMENT of the property: `fp2_is_square x = 0xFFFFFFFF ↔ IsSquare (val2 x)` for every x
-   (0 included). It depends on the back-end's `fp_is_square` at 0: false for the ref back-end (see
-   `fp2_is_square_zero_counterexample`), true for x86 (`fp2_is_square_spec_full`). -/
+   (0 included). It depends on the back-end's `fp_is_square` at 0: true for the ref back-end after the repair
+   (`ref_fp2_is_square_spec`) and for x86 (`fp2_is_square_spec_full`). -/
 theorem fp2_is_square_spec_partial {x : Fp2 α} (hx : dom2 dom x) (hne : val2 val x ≠ 0) :
     (fp2_is_square O x = T32 ↔ IsSquare (val2 val x)) ∧ (fp2_is_square O x = 0 ∨ fp2_is_square O x = T32) :=
   SqiProofs.GfFp2.fp2_is_square_spec_partial h hx hne
@@ -268,11 +261,15 @@ theorem fp2_pow_vartime_spec (x : Fp2 α) (hx : dom2 dom x) (ws : List Nat) (hw 
 
 end fp2
 
-set_option maxRecDepth 100000 in
-/-- counterexample (ref back-end, each level): `fp2_is_square(0)` is false although `0 = 0²` -/
-theorem fp2_is_square_zero_counterexample :
-    fp2_is_square (Ref.ops lvl1) ⟨0, 0⟩ = 0 ∧ fp2_is_square (Ref.ops lvl3) ⟨0, 0⟩ = 0 ∧
-    fp2_is_square (Ref.ops lvl5) ⟨0, 0⟩ = 0 := by decide +kernel
+/-- ref back-end after the repair: `fp2_is_square` is true exactly on squares of `Fp[i]`, 0 included -/
+theorem ref_fp2_is_square_spec {P : RefParams} (hL : IsLevel P) {x : Fp2 Nat} (hx : dom2 (fun a => a < P.p) x) :
+    have := hL.prime
+    fp2_is_square (Ref.ops P) x = T32 ↔ IsSquare (val2 (toZ P) x) := by
+  have := hL.prime
+  refine SqiProofs.GfFp2.fp2_is_square_spec_full (ref_refines hL.valid) ?_ hx
+  intro a ha h0
+  have := (SqiProofs.GfRef.fp_is_square_spec hL.valid ha).1
+  exact this.mpr (by rw [h0]; exact ⟨0, by simp⟩)
 
 set_option maxRecDepth 100000 in
 /-- counterexample: a batch `[1, 0]` comes back as `[0, 0]`, but element-wise inversion (with the
@@ -350,22 +347,25 @@ theorem gf_cswap_spec (a b : Nat) (h0 : a < 2 ^ P.B) (h1 : b < 2 ^ P.B) :
   have hBR : 2 ^ P.B < P.R := by rcases hP with rfl | rfl | rfl <;> decide +kernel
   exact ⟨cswap_zero P a b, cswap_T32 P hP a b (lt_trans h0 hBR) (lt_trans h1 hBR)⟩
 
-/- FULL STATEMENT (property): `square a < 2^B ∧ square a · R ≡ a² (mod q)` for every level.
-   TRUE at level 1 (`gf_square_spec_lvl1`), FALSE at levels 3 and 5 on the pinned tree: the carry chains of
-   the cross-product rows of gf65376_square / gf27500_square stop below the top limb
-   (`gf_square_counterexample_lvl3/5`, replayed on the real code; repair in notes/patches). -/
-omit hP in
-theorem gf_square_spec_lvl1 (a : Nat) (ha : a < 2 ^ x1.B) :
-    X86.square x1 a < 2 ^ x1.B ∧ (X86.square x1 a * x1.R) % x1.q = (a * a) % x1.q := square_spec_x1 a ha
-omit hP in
-theorem gf_square_counterexample : ¬ SquareOK x3 ∧ ¬ SquareOK x5 := ⟨not_squareOK_x3, not_squareOK_x5⟩
+/-- squaring, every level (since the repair 82bdea1 of gf65376_square / gf27500_square; the pre-fix
+    lost-carry witnesses are kept in corpus/C07 and are re-run against the real code on every check) -/
+theorem gf_square_spec (a : Nat) (ha : a < 2 ^ P.B) :
+    X86.square P a < 2 ^ P.B ∧ (X86.square P a * P.R) % P.q = (a * a) % P.q := square_spec P hP a ha
 
-/-- square root: range, even canonical value, and the returned flag is exactly "result² ≡ a"
-    (relative to `SquareOK`, i.e. level 1 on the pinned tree) -/
-theorem gf_sqrt_spec (hsq : SquareOK P) (a : Nat) (ha : a < 2 ^ P.B) :
+/-- multiplication by a 32-bit integer (since the repair 2ef264b) -/
+theorem gf_mul_small_spec (a x : Nat) (ha : a < 2 ^ P.B) (hx : x < 2 ^ 32) :
+    X86.mul_small P a x < 2 ^ P.B ∧ X86.mul_small P a x % P.q = (a * x) % P.q := mul_small_spec P hP a x ha hx
+
+/-- square root: range, even canonical value, and the returned flag is exactly "result² ≡ a" -/
+theorem gf_sqrt_spec (a : Nat) (ha : a < 2 ^ P.B) :
     (X86.sqrt P a).1 < 2 ^ P.B ∧ X86.encode P (X86.sqrt P a).1 % 2 = 0 ∧
     ((X86.sqrt P a).2 = T32 ↔ X86.square P (X86.sqrt P a).1 % P.q = a % P.q) ∧
-    ((X86.sqrt P a).2 = T32 ∨ (X86.sqrt P a).2 = 0) := sqrt_spec P hP hsq a ha
+    ((X86.sqrt P a).2 = T32 ∨ (X86.sqrt P a).2 = 0) := sqrt_spec_all P hP a ha
+
+/-- the exponent chain of `gf*_sqrt` computes `a^((q+1)/4)`: the returned value is a square root of every
+    square (all levels; with `gf_sqrt_spec`: in range, even canonical value, flag ⇔ root) -/
+theorem gf_sqrt_root [Fact P.q.Prime] (a : Nat) (ha : a < 2 ^ P.B) (hsq : IsSquare (xval P a)) :
+    xval P (X86.sqrt P a).1 * xval P (X86.sqrt P a).1 = xval P a := sqrt_root P hP ha hsq
 
 /-- Pornin binary GCD (inversion / division): one outer iteration of the model's `divOuterStep` preserves
     the invariant `a·x·2^k ≡ y·u ∧ b·x·2^k ≡ y·v (mod q)` (with k ↦ k+31) for any update coefficients
@@ -385,7 +385,7 @@ theorem gf_div_outer_invariant_partial (st : DivSt) (k : Nat) (x y : Int)
   SqiProofs.GfX86.divOuterStep_invariant P hP st k x y ha hb hu hv hc h1 h2
 
 /-- the x86 model satisfies the GF(p²)/C06 interface `FpRefines`; arithmetic fields proved, the fields
-    resting on the binary GCD / sqrt exponent chain / `SquareOK` are the explicit hypothesis `X86Cited` -/
+    resting on the binary GCD (`inv`, `isSquare`) are the explicit hypothesis `X86Cited` -/
 theorem x86_backend_refines [Fact P.q.Prime] (hc : X86Cited P) :
     FpRefines (X86.ops P) P.q (fun a => a < 2 ^ P.B) (xval P) := x86_refines hP hc
 
@@ -398,7 +398,8 @@ instance : Fact x3.q.Prime := ⟨by rw [x86_q.2.1]; exact Fact.out⟩
 instance : Fact x5.q.Prime := ⟨by rw [x86_q.2.2]; exact Fact.out⟩
 
 /-- non-vacuity of the x86 hypotheses -/
-example : SqiProofs.GfX86.IsLvl x1 ∧ (12345 : Nat) < 2 ^ x1.B ∧ SqiProofs.GfX86.SquareOK x1 :=
-  ⟨Or.inl rfl, by decide, SqiProofs.GfX86.squareOK_x1⟩
+example : SqiProofs.GfX86.IsLvl x3 ∧ (2 ^ 383 - 2 : Nat) < 2 ^ x3.B ∧
+    X86.square x3 (2 ^ 383 - 2) = X86.mul x3 (2 ^ 383 - 2) (2 ^ 383 - 2) :=
+  ⟨Or.inr (Or.inl rfl), by decide +kernel, by decide +kernel⟩
 
 end SqiProps.C07
